@@ -47,6 +47,20 @@ claimed = {
    note=(TB + "Assumed: fewer than 2^31 work-groups per dispatch, CU counts <= 65536, at most 4096 unified GPUs; NewWorkGroup and formWavefronts enter NextWG through trusted frame-only contracts; "
          "the explicit guard 'not all wg allocated' is kept as a run-time check (its unreachability needs a prefix-sum argument). Suspect not yet decided: formWavefronts for partial work-groups whose row pitch does not divide 64 (DESIGN.md)."),
    design="5 (C08)", technique="deductive verification: WP-style VC generation over go/ssa + SMT (integer mode with overflow obligations, loop invariants)"),
+ "C06": dict(
+   text=("For the 38 integer VOP2 handlers of the two ALUs that are under a per-lane ISA contract (see C03), lane independence and EXEC obedience follow from the contract itself: "
+         "the 64-iteration lane loop is summarised by clause invariants proving that iteration i reads only lane i's operands and uniform operands, writes only lane i's destination cells "
+         "and bit i of VCC/SDST, and does so only when EXEC bit i is set, with the lane result equal to a function of lane i's inputs that does not mention i. "
+         "VOP1/VOPC/VOP3, DS and FLAT handlers and the zero-annotation two-copy sweep of DESIGN.md are not built yet."),
+   note=(TB + "Shares obligations with C03 (same contracts, tagged with both properties). The C03 value deviations of the v_addc/v_subb family (per-lane, not cross-lane) are outside the claim: "
+         "their lanes are exempted through scope lines in known_findings.txt, listed in the evidence assumptions."),
+   design="5 (C06)", technique="deductive verification: lane-loop summarisation (Houdini-filtered clause invariants with bit/cell meta-lemmas) over go/ssa + SMT"),
+ "C09": dict(
+   text=("The allocation masks of a compute unit (resourceMaskImpl.nextRegion/setStatus/convertStatus/statusCount) and CUResourceImpl.unitsOccupy are under contract for all mask contents and arguments: "
+         "a region returned by nextRegion lies inside the mask and consists only of units in the requested status, setStatus/convertStatus change exactly the units they name, and unit counts round up. "
+         "ReserveResourceForWG/FreeResourcesForWG (the reserve-then-commit table), the placement algorithms and the dispatcher's completion accounting are not yet under contract."),
+   note=(TB + "First-fit/completeness of nextRegion (false only if no region exists) is not stated; message interleavings are outside the technique."),
+   design="5 (C09)", technique="deductive verification: WP-style VC generation over go/ssa + SMT (array loop invariants)"),
  "C11": dict(
    text=("memRangeOverlap (the predicate deciding whether a copy must flush dirty buffers) is proved equivalent to interval intersection for all "
          "non-empty ranges over the full uint64 domain. The splitting loops and completion bookkeeping are not yet under contract."),
